@@ -32,7 +32,9 @@ Builtins  == Dangerous \cup Harmless
 Positions == {"validation.rego", "validation.regoModule", "validation.rego.code", "constraint.rego",
               "constraint.regoModule", "constraint.rego.code", "under.not", "and.operand", "or.operand", "under.nested",
               "atLeast.validation", "atMost.validation", "if", "then", "else", "extensions.called", "extensions.uncalled",
-              "extensions.rule"}
+              "extensions.rule",
+              \* the dangerous block is the SECOND of two embedded-Rego operands that differ in nothing but their code
+              "and.secondRego", "or.secondRego", "not.or.secondRego", "constraint.regoAndModule"}
 \* how the call is written
 Syntaxes == {"statement", "assignment", "unification", "arrayComprehension", "setComprehension",
              "objectComprehension", "every", "argument", "negated", "ruleHeadValue", "withMock"}
